@@ -65,8 +65,9 @@ class DataReader(object):
             self.lines[self.i] += line
 
     def from_recv_buffer(self):
-        self.add_lines(self.io.recv_buffer)
+        buffered = self.io.recv_buffer
         self.io.recv_buffer = b''
+        self.add_lines(buffered)
 
     def handle_finished_line(self):
         i = self.i
@@ -90,10 +91,22 @@ class DataReader(object):
         last = 0
         for match in fullline_pattern.finditer(piece):
             last = match.end(0)
+            self._count_size(match.group(0))
             self._append_line(match.group(0))
             self.handle_finished_line()
         after_match = piece[last:]
+        self._count_size(after_match)
         self._append_line(after_match)
+
+    def _count_size(self, data):
+        # Only what belongs to the message counts towards the limit, however
+        # the stream was cut: not what follows the end-of-data line, but also
+        # what was already buffered when the reader started.
+        if self.EOD is None:
+            self.size += len(data)
+            if self.max_size and self.size > self.max_size:
+                self.EOD = self.i
+                raise MessageTooBig()
 
     def recv_piece(self):
         if self.EOD is not None:
@@ -102,11 +115,6 @@ class DataReader(object):
         piece = self.io.raw_recv()
         if piece == b'':
             raise ConnectionLost()
-
-        self.size += len(piece)
-        if self.max_size and self.size > self.max_size:
-            self.EOD = self.i
-            raise MessageTooBig()
 
         self.add_lines(piece)
         return self.EOD is None
